@@ -45,10 +45,17 @@ class Run:
         self.fired = []
 
 
+_MISSING = object()
+
+
 def _mock_token():
     """token (world.ZONE_HISTORY) of the zone object currently set as mock local zone, if a named one"""
-    m = getattr(_ltz, "_mock_local_timezone", None)
-    return None if not isinstance(m, _dt.tzinfo) else ZONE_HISTORY["tokens"].get(id(m))
+    m = getattr(_ltz, "_mock_local_timezone", _MISSING)
+    if m is _MISSING or not isinstance(m, (_dt.tzinfo, type(None))):
+        # the override is not kept where it used to be (renamed / re-typed global): the object the
+        # harness or the nemesis handed to the setter last
+        m = get_world()._mock_obj
+    return None if m is None else ZONE_HISTORY["tokens"].get(id(m))
 
 
 def mock_tokens(run, rec):
@@ -102,6 +109,7 @@ def _nemesis(world: World, sched, op, rec, run):
     elif kind == "mock_tz":
         tz = None if val is None else World.zone(val)
         pendulum.set_local_timezone(tz)
+        world._mock_obj = tz
         rec["reg"] = ("mock_tz", val)
         rec["reg_tok"] = _mock_token()
     elif kind == "cal_fwd":
@@ -305,7 +313,7 @@ def quiescent_eval(world, sc, op, asg, qres, zlog=None, zctx=None):
         # the reference evaluation works with the very zone objects of the simulation
         mapping = dict(enumerate(zctx[1]))
         if asg.get("_mock_tok") is not None and asg["_mock_tok"] in mapping:
-            _ltz._mock_local_timezone = mapping[asg["_mock_tok"]]
+            world.set_mock_obj(mapping[asg["_mock_tok"]])
         zone_replay(zctx[0], mapping)
     try:
         pool = [build(s, None) for s in sc.get("pool", [])]
